@@ -14,6 +14,8 @@ def run(ctx):
     db, rep = ctx.db, ctx.report
     prog = db.program('qmail-send')
     r1 = rep.rule('C03.1-DONE-only-on-K-or-D', 'R-TABLE', 'del_dochan: report letter x flagdying -> {mark, bounce+mark, nothing}; bounce text appended before the D mark; numtodo decremented iff marked; markdone is the only writer of channel files')
+    for inst_, v_ in sorted(qsend.reread_sites(db, rep).items()):
+        r1.check(v_[0], inst_, v_[1], v_[2], v_[3])
     for inst_, v_ in sorted(qsend.id_width_sites(db).items()):
         r1.check(v_[0], inst_, v_[1], v_[2], v_[3])
     dd = qsend.analyse_del_dochan(db, rep)
